@@ -10,7 +10,7 @@ CLAIMED = {
                  'piece of code.',
         'note': 'Trusted: queue.PriorityQueue pops the `<`-smallest item; itertools.count is strictly increasing and atomic under the GIL. '
                 'Order among concurrent publishers is undefined by the property and not decided.',
-        'technique': SA + 'finite-domain abstract evaluation of __lt__ over all order types + dataflow of the sequence field + field-type census of the queues; evaluation over int objects that are equal but not identical',
+        'technique': SA + 'finite-domain abstract evaluation of __lt__ over all order types + dataflow of the sequence field + field-type census of the queues; evaluation over int objects that are equal but not identical; shared mechanism rules: QUEUE.internals (queue bookkeeping left to the queue)',
     },
     'C25': {
         'level': 'Decides the registry discipline that makes name<->number a stable bijection for all name sequences and interleavings: append-only '
@@ -20,7 +20,7 @@ CLAIMED = {
                 'behaviour of concurrent registrations is argued from the lock rule, not explored.',
         'technique': SA + 'who-may-write census, dominance on CFGs, literal tables, lockset rule for check-then-act and iterate-while-growing sites, '
                      'publication-order rule (derived state before the binding unless readers hold the lock), finite evaluation of the constructor, append and '
-                     'the two reader functions over small registries (names include the empty string, a digit string, padded and two-word names; numbers are int objects of their own)',
+                     'the two reader functions over small registries (names include the empty string, a digit string, padded and two-word names; numbers are int objects of their own); shared mechanism rules: SINGLETON.module-binding',
     },
     'C26': {
         'level': 'Decides the structural half of the round trip for every name and payload: the key table written by dumps equals the one read by '
@@ -28,7 +28,7 @@ CLAIMED = {
                  'loads(dumps(e)) is evaluated in the finite evaluator on eleven payload shapes (None, falsy scalars and containers, nested) with the '
                  'stdlib codec. Payload equality for arbitrary runtime values beyond that domain rests on json being an inverse pair.',
         'note': 'Trusted: json.dumps/json.loads are inverse on JSON-representable values. Event(name) registration is covered by C25.',
-        'technique': SA + 'writer/reader table agreement by local def-use dataflow; finite-domain evaluation of dumps then loads over 11 payloads and 9 signal names (padded, tab, newline, empty, quotes, non-ASCII)',
+        'technique': SA + 'writer/reader table agreement by local def-use dataflow; finite-domain evaluation of dumps then loads over 11 payloads and 9 signal names (padded, tab, newline, empty, quotes, non-ASCII); shared mechanism rules: SINGLETON.module-binding',
     },
     'C27': {
         'level': 'Decides lockset facts of the get/set hand-over protocol that hold for every interleaving: which accesses are inside the critical '
@@ -37,7 +37,7 @@ CLAIMED = {
         'note': 'Trusted: RLock semantics; `obj.x += v` is __get__ then __set__ on one thread. Serialisability of the final value is argued from the '
                 'lockset, not explored.',
         'technique': SA + 'lockset dataflow (set of lock depths per CFG node), dominance / post-dominance of acquire and release; blocking-acquire rule; '
-                     'finite evaluation of the line classifier on the 13 augmented-assignment operators; linecache readers must be given the module globals (text available for loader-only modules)',
+                     'finite evaluation of the line classifier on the 13 augmented-assignment operators; linecache readers must be given the module globals (text available for loader-only modules); no text rewriting between the frame info and the classifier',
     },
     'C28': {
         'level': 'Decides, over the complete finite universe of Python operator tokens, which statement forms the source-line classifier treats as '
@@ -46,7 +46,7 @@ CLAIMED = {
         'note': 'Trusted: inspect.getframeinfo gives the physical source line; token.EXACT_TOKEN_TYPES of the interpreter is the operator universe. '
                 'The regex literal is evaluated by the stdlib engine on the finite token universe (constant evaluation, not execution of miros).',
         'technique': SA + 'constant evaluation of the classifier regex and of the classifier functions as a whole over token.EXACT_TOKEN_TYPES + path counting of '
-                     'release() per branch; no getattr/setattr/hasattr/delattr with a computed key on the instance inside the descriptor (user hooks must not run with the lock held)',
+                     'release() per branch; no getattr/setattr/hasattr/delattr with a computed key on the instance inside the descriptor (user hooks must not run with the lock held); no text rewriting between the frame info and the classifier; hand-over flag kept per descriptor; line list subscripted only when present',
     },
     'C29': {
         'level': 'Decides for every program whether values can leak between instances: the descriptor object is per class, so the storage its '
@@ -59,13 +59,13 @@ CLAIMED = {
         'level': 'Decides the creation race for every schedule: test-empty and assign of the lazily created instance are in one critical section '
                  'whose lock pre-exists; no raw construction or outside assignment of the slot anywhere in the package.',
         'note': 'Trusted: `with lock` is a critical section. Singleton lifetime (process) is not modelled.',
-        'technique': SA + 'lockset rule on SingletonDecorator.__call__ + who-may-construct / who-may-assign census over the package; publication rule: the slot receives finished objects only and is not emptied after a completed store',
+        'technique': SA + 'lockset rule on SingletonDecorator.__call__ + who-may-construct / who-may-assign census over the package; publication rule: the slot receives finished objects only and is not emptied after a completed store; shared mechanism rules: SINGLETON.module-binding; ATOMIC.decorator-once',
     },
     'C31': {
         'level': 'Decides for every interleaving that a rejected timed source never runs: no CFG path through thread.start() reaches the rejection, the '
                  'admission test dominates the start, tracked sources are untouched on the rejecting path, and a started source is always tracked.',
         'note': 'Trusted: a Thread does nothing before start(). Capacity race between two concurrent timed posts at 499/500 is not armed (see DESIGN).',
-        'technique': SA + 'reachability / dominance / path counting on the CFG of the timed-post routine; the limit is read through the object, not from a named base class (ADMIT.own-limit)'
+        'technique': SA + 'reachability / dominance / path counting on the CFG of the timed-post routine; the limit is read through the object, not from a named base class (ADMIT.own-limit); shared mechanism rules: TRACK.owner (tracking deque created once), SCAN.pop-on-match'
                      + '; reaching definitions of the flag cleared on the rejection path; admission limit == maxlen',
     },
     'C32': {
@@ -73,7 +73,7 @@ CLAIMED = {
                  'removed exactly by the reader regex and nothing else is, and both branches of stripped() normalise identically. The "exactly '
                  'when" over arbitrary perturbed inputs is not decided.',
         'note': 'Trusted: strftime digit directives emit ASCII digits. Regex/format literals are evaluated by the stdlib on a finite alphabet-covering set.',
-        'technique': SA + 'constant evaluation of writer format and reader regex literals over the timestamp alphabet + CFG sibling comparison of the two branches; finite evaluation of stripped() on traces built from the writer\'s layout (equal timestamps, repeated records, blank/padded lines)'
+        'technique': SA + 'constant evaluation of writer format and reader regex literals over the timestamp alphabet + CFG sibling comparison of the two branches; finite evaluation of stripped() on traces built from the writer\'s layout (equal timestamps, repeated records, blank/padded lines); WRITER.line-per-record'
                      + '; helpers followed through decorators; no memoised helper returns a mutable container',
     },
     'C04': {
@@ -83,14 +83,14 @@ CLAIMED = {
                  'own thread reaches the step function. The linearised claim over all interleavings is NOT decided.',
         'note': 'Not decided: the history-level claim (exactly once / queue order / quiescence under every interleaving); it is argued from the '
                 'token potential in DESIGN.md. Trusted: deque and Queue semantics; external callers do not drive next_rtc of a started object.',
-        'technique': SA + 'end-label and path-count rules on CFGs, guard analysis of the token protocol, thread-root reachability on the call graph; who-operates census on the pending-event queue (LAYER.queue-writers) and class of the queue objects (ENDS.queue-class)',
+        'technique': SA + 'end-label and path-count rules on CFGs, guard analysis of the token protocol, thread-root reachability on the call graph; who-operates census on the pending-event queue (LAYER.queue-writers) and class of the queue objects (ENDS.queue-class); shared mechanism rules: LIVE.snapshot, RING.owners (step buffers written/cleared only on the chart thread)',
     },
     'C05': {
         'level': 'Decides necessary conditions of "every post returns": each blocking token put has room by construction (guard + equal '
                  'capacities), the repair loops are monotone in what their guard compares, and no other loop or blocking call is reachable from an '
                  'untimed post. Fair termination itself is a liveness property of schedules and is NOT decided.',
         'note': 'Not decided: termination under fair schedules. Trusted: Queue.put blocks only when full; qsize/len are atomic reads.',
-        'technique': SA + 'loop/guard operator analysis (one-sided comparison rule), call-graph closure of the post path, constructor capacity agreement',
+        'technique': SA + 'loop/guard operator analysis (one-sided comparison rule), call-graph closure of the post path, constructor capacity agreement; shared mechanism rules: LIVE.snapshot, RING.owners (step buffers written/cleared only on the chart thread)',
     },
     'C07': {
         'level': 'Decides that every configuration of subscribe/publish - instrumented or not, thread running or not, other subscribers present or '
@@ -98,7 +98,7 @@ CLAIMED = {
                  'wrappers, both branches of the thread-running selector, payload-tuple writer/reader agreement with the meta arms of top(), and '
                  'an identity-keyed "already subscribed" guard.',
         'note': 'Not decided: arrival at the chart under all delivery schedules (fabric side: C06, placement: C09).',
-        'technique': SA + 'path counting through decorator wrappers, branch analysis, interprocedural key-dependence slice of the guard, namedtuple field agreement; grow-only rule for subscriber lists outside clear() (LAYER.registry-grows)'
+        'technique': SA + 'path counting through decorator wrappers, branch analysis, interprocedural key-dependence slice of the guard, namedtuple field agreement; grow-only rule for subscriber lists outside clear() (LAYER.registry-grows); shared mechanism rules: LIVE.snapshot, RING.owners (step buffers written/cleared only on the chart thread), STOP.liveness (finite evaluation of the thread-running predicate)'
                      + '; hand-over atoms of the run-time subscription (nothing but the keyed already-subscribed test may skip it)',
     },
     'C14': {
@@ -106,20 +106,20 @@ CLAIMED = {
                  'from next_rtc, one pop <-> one dispatch of the popped value per step, complete_circuit loops exactly while non-empty, and '
                  'dispatch unreachable from the post methods in the call graph.',
         'note': 'Trusted: collections.deque semantics. Handlers re-entering dispatch directly (H4) are outside the quantifier.',
-        'technique': SA + 'end labels, path counting, loop-shape rule, call-graph reachability; who-operates census on the pending-event queue (LAYER.queue-writers) and class of the queue objects (ENDS.queue-class)',
+        'technique': SA + 'end labels, path counting, loop-shape rule, call-graph reachability; who-operates census on the pending-event queue (LAYER.queue-writers) and class of the queue objects (ENDS.queue-class); shared mechanism rules: BOUND.buffers',
     },
     'C15': {
         'level': 'Decides the deferral discipline for every interleaving of defer/recall/posts/steps: single writer end, single reader end (oldest), '
                  're-post of exactly the removed element with post_fifo, None on empty, nobody else touches the buffer.',
         'note': 'Trusted: deque semantics; post_fifo places at the back (C14).',
-        'technique': SA + 'end labels, path counting per branch, who-may-touch census, wrapper discipline',
+        'technique': SA + 'end labels, path counting per branch, who-may-touch census, wrapper discipline; shared mechanism rules: BOUND.buffers, ENDS.recall-guard',
     },
     'C16': {
         'level': 'Decides capacity and non-blocking per path of the code, so for empty, partly filled and full queues alike: every deque has a named '
                  'bound, LockingDeque adds the item at the right end on the overflow path too, every blocking token put has room, clear() pairs '
                  'task_done with successful gets.',
         'note': 'Trusted: bounded deque evicts at the opposite end; Queue.task_done raises when called more often than get succeeded.',
-        'technique': SA + 'constructor census, per-path end labels, guard analysis, exception-edge pairing of get/task_done; capacity agreement of every deque handed to the LockingDeque with its token queue',
+        'technique': SA + 'constructor census, per-path end labels, guard analysis, exception-edge pairing of get/task_done; capacity agreement of every deque handed to the LockingDeque with its token queue; shared mechanism rules: TOKEN.pairing',
     },
     'C18': {
         'level': 'Decides for every chart and event sequence that instrumentation is behaviour-neutral in structure: each of the 17 decorator wrappers '
@@ -128,7 +128,7 @@ CLAIMED = {
                  'spy-wrapped.',
         'note': 'Assumes H4 (handlers cannot reach wrapper locals). Behavioural equality of runs is not executed; it follows from the wrappers being '
                 'transparent.',
-        'technique': SA + 'exactly-once path counting on wrapper CFGs, argument/result forwarding dataflow, attribute-path effect sets, dominance of the instrumented test; exception transparency of the wrappers (no return in finally, no catch-all without re-raise)'
+        'technique': SA + 'exactly-once path counting on wrapper CFGs, argument/result forwarding dataflow, attribute-path effect sets, dominance of the instrumented test; exception transparency of the wrappers (no return in finally, no catch-all without re-raise); shared mechanism rules: RING.owners (step buffers written/cleared only on the chart thread), BOOK.outputs-only (state_name/state_fn read by nothing)'
                      + '; spy-decoration detection rests on evidence specific to the spy_on wrapper',
     },
     'C06': {
@@ -137,13 +137,13 @@ CLAIMED = {
                  'kind -> registry -> thread -> fabric-queue wiring by dataflow, delivery loop over exactly registry[signal of the item], one put per '
                  'kind per publication, and no rebinding of objects the threads hold.',
         'note': 'Not decided: exactly-once across delivery-thread interleavings (a history property). Trusted: list iteration, atomic deque adds.',
-        'technique': SA + 'identity/content operator census, per-path modification counts, dataflow wiring through start()/subscribe(), loop-shape rules, alias rule; grow-only rule for subscriber lists outside clear() (LAYER.registry-grows)',
+        'technique': SA + 'identity/content operator census, per-path modification counts, dataflow wiring through start()/subscribe(), loop-shape rules, alias rule; grow-only rule for subscriber lists outside clear() (LAYER.registry-grows); shared mechanism rules: QUEUE.internals (queue bookkeeping left to the queue)',
     },
     'C09': {
         'level': 'Decides which end of a subscriber queue each delivery thread adds to, with "front" read from the consumer (the pop in next_rtc) and the '
                  'kind of each thread resolved by dataflow. The lifo thread appending at the back is an open finding (a test pins it).',
         'note': 'Known finding F-C09 is reported as KNOWN-FINDING; any other end mismatch is a violation.',
-        'technique': SA + 'end-label agreement between producer threads and the consumer, kind resolution by dataflow; who-operates census on the pending-event queue (LAYER.queue-writers) and class of the queue objects (ENDS.queue-class)',
+        'technique': SA + 'end-label agreement between producer threads and the consumer, kind resolution by dataflow; who-operates census on the pending-event queue (LAYER.queue-writers) and class of the queue objects (ENDS.queue-class); shared mechanism rules: LIVE.snapshot, RING.owners (step buffers written/cleared only on the chart thread); BOUND.tokens',
     },
     'C10': {
         'level': 'Decides the count ("exactly n times, forever for 0") by an induction established from the CFG of the timer thread: one post and one '
@@ -159,7 +159,7 @@ CLAIMED = {
                  'source exactly once (one of pop()/rotate(1) per iteration, len iterations, inspected element [-1]), and that only matched sources '
                  'are stopped. The test-then-post window of the timer thread is an open finding.',
         'note': 'Known finding F-C11b (one stray post after cancel returns) is reported as KNOWN-FINDING.',
-        'technique': SA + 'identity-vs-equality operator census, exactly-one-of path rule per loop iteration, guard analysis, lockset look at the timer'
+        'technique': SA + 'identity-vs-equality operator census, exactly-one-of path rule per loop iteration, guard analysis, lockset look at the timer; shared mechanism rules: TRACK.owner (tracking deque created once)'
                      + '; admission limit == maxlen of the tracking deque; post-sleep re-test as a cut of the timer loop',
     },
     'C12': {
@@ -168,7 +168,7 @@ CLAIMED = {
                  'dispatch the stop item; and by effect analysis that stop() touches only this object. "No post after stop() returns" is limited by the '
                  'open finding F-C11b.',
         'note': 'Trusted: Thread.join semantics; the wake-up token protocol (C04).',
-        'technique': SA + 'dominance / post-dominance on the CFG of stop(), snapshot-vs-live alias rule, attribute-path write set of stop()'
+        'technique': SA + 'dominance / post-dominance on the CFG of stop(), snapshot-vs-live alias rule, attribute-path write set of stop(); shared mechanism rules: LIVE.snapshot, RING.owners (step buffers written/cleared only on the chart thread), TRACK.owner (tracking deque created once), STOP.liveness (finite evaluation of the thread-running predicate)'
                      + '; run flag re-read between two consumer steps; admission limit == maxlen; timer re-test',
     },
     'C13': {
@@ -177,7 +177,7 @@ CLAIMED = {
                  'the shared event before waking and wakes before joining with the same (handle, queue) pairs, is_alive is the conjunction (evaluated '
                  'on all 9 handle states), fabric and active objects share one run event, and nothing rebinds what the threads hold.',
         'note': 'Trusted: Thread.is_alive/join semantics. Delivery after restart relies on C06.',
-        'technique': SA + 'return-path completeness, dominance, finite evaluation of is_alive over handle states, singleton/alias census'
+        'technique': SA + 'return-path completeness, dominance, finite evaluation of is_alive over handle states, singleton/alias census; shared mechanism rules: BOUND.buffers, QUEUE.internals (queue bookkeeping left to the queue)'
                      + '; stop analysis with or without the nested helper; wake-up item of the class publish() queues',
     },
     'C01': {
@@ -193,7 +193,7 @@ CLAIMED = {
                  'candidate was compared with every ancestor of the target up to the outermost state. Termination of the search is argued from these, not decided.',
         'note': 'Trusted base: handler protocol H1-H4 (evidence lists it); the thorough tier\'s census checks the repository\'s own handlers against it. '
                 'The obligations are safety facts of the code for every chart that follows H1-H4; liveness (the climb terminates) is argued from them for finite charts.',
-        'technique': SA + 'relational abstract interpretation (difference-bound matrices, flag-partitioned, delayed widening) with ghost variables for buffer content, chain depths, exit count and common-ancestor witness + CFG path/guard rules over the 19 handler-call sites',
+        'technique': SA + 'relational abstract interpretation (difference-bound matrices, flag-partitioned, delayed widening) with ghost variables for buffer content, chain depths, exit count and common-ancestor witness + CFG path/guard rules over the 19 handler-call sites; shared mechanism rules: HSM-CURSOR.I1 for generators',
     },
     'C02': {
         'level': 'Decides for every chart that the processor itself bubbles an event outward one level at a time (one offer per level to the cursor '
@@ -201,7 +201,7 @@ CLAIMED = {
                  'state unless a handler answered TRAN; top is effect-free and constant; every cursor-moving method restores cursor == state; and (ghost depth '
                  'on the active chain, any nesting depth) the n-th offer goes to the ancestor of the current state at depth n, the guard fallback to the state that declined.',
         'note': 'What a user handler returns is runtime and not decided. H1-H4 assumed.',
-        'technique': SA + 'loop-shape and guard-polarity analysis on the CFG of dispatch, reaching definitions of the offered-to state, effect set of top, post-dominance (I1), zone-domain ghost depth of the offered-to state; answer codes pairwise distinct (STATUS.distinct); spy-decoration detection (shared with C18/C23)',
+        'technique': SA + 'loop-shape and guard-polarity analysis on the CFG of dispatch, reaching definitions of the offered-to state, effect set of top, post-dominance (I1), zone-domain ghost depth of the offered-to state; answer codes pairwise distinct (STATUS.distinct); spy-decoration detection (shared with C18/C23); shared mechanism rules: HSM-CURSOR.I1 for generators, BOOK.outputs-only (state_name/state_fn read by nothing)',
     },
     'C03': {
         'level': 'Decides for every depth that init() keeps its path buffer consistent (zone-domain proof of all index obligations), enters slots '
@@ -209,7 +209,7 @@ CLAIMED = {
                  'before init() and leaves cursor == state == last init target; slot k holds the k-th ancestor of the init target when entered, and no raise '
                  'statement of init() is reachable by a protocol-following chart (start state below top, init targets inside the state that takes them).',
         'note': 'As C01: LCA-style functional correctness is not decided; H1-H4 assumed.',
-        'technique': SA + 'zone-domain abstract interpretation of init + entry-loop, signal-set and must-precede rules',
+        'technique': SA + 'zone-domain abstract interpretation of init + entry-loop, signal-set and must-precede rules; shared mechanism rules: HSM-CURSOR.I1 for generators, FACTORY.identity (finite evaluation of Factory.start_at)',
     },
     'C19': {
         'level': 'Decides structurally that the spy log records every invocation: all handler calls go through the decorated handler object, and '
@@ -218,14 +218,14 @@ CLAIMED = {
                  'the full log only grows by extend(step log) after it, rings are bounded and right-extended. The exact line sequence for a '
                  'given chart is NOT decided.',
         'note': 'Trusted: handlers reach the processor only as the decorated object given to start_at/trans.',
-        'technique': SA + 'dominance / control-dependence on wrapper CFGs, who-writes census over the four ring buffers; finite evaluation of scribble() over texts with format metacharacters (SPY.scribble)',
+        'technique': SA + 'dominance / control-dependence on wrapper CFGs, who-writes census over the four ring buffers; finite evaluation of scribble() over texts with format metacharacters (SPY.scribble); shared mechanism rules: RING.owners (step buffers written/cleared only on the chart thread), ENDS.recall-guard',
     },
     'C20': {
         'level': 'Decides that each trace wrapper appends at most one record per call, only under "not hooked and not ignored", with start state '
                  'reflected before and end state after the step and only this step\'s tuples inspected; and outcome completeness: IGNORED always '
                  'sets event.ignored, and every package handler that is not spy-wrapped and can answer HANDLED records a hook tuple.',
         'note': 'Assumes user handlers are spy-wrapped when the chart is instrumented (spy_on_start switches instrumentation off otherwise).',
-        'technique': SA + 'path counting, guard analysis, outcome-completeness rule over dispatch and every top() override; the start state of a record is reflected from state.fun (the cursor is stale after a step that raised)'
+        'technique': SA + 'path counting, guard analysis, outcome-completeness rule over dispatch and every top() override; the start state of a record is reflected from state.fun (the cursor is stale after a step that raised); shared mechanism rules: RING.owners (step buffers written/cleared only on the chart thread), BOOK.outputs-only (state_name/state_fn read by nothing)'
                      + '; trace() is a pure rendering of the live trace deque (effects + iteration source)',
     },
     'C21': {
@@ -233,7 +233,7 @@ CLAIMED = {
                  'record is decided by identity with the remembered record and the memory is updated on every path, live spy loops iterate a '
                  'snapshot with one callback per line after the step, and active-object output funnels through one FIFO queue and one writer thread.',
         'note': 'Two writer threads from concurrently starting objects are outside this property\'s quantifier. User callbacks not analysed.',
-        'technique': SA + 'field-based taint from datetime.now() to branch conditions, identity/update-on-every-path rule, loop-shape rules; finite evaluation of the writer\'s enqueue step with truthy/falsy callback objects and empty lines (LIVE.writer-item)'
+        'technique': SA + 'field-based taint from datetime.now() to branch conditions, identity/update-on-every-path rule, loop-shape rules; finite evaluation of the writer\'s enqueue step with truthy/falsy callback objects and empty lines (LIVE.writer-item); shared mechanism rules: RING.owners (step buffers written/cleared only on the chart thread)'
                      + '; writer thread: take/callback pairing over simple paths, wake-up flag cleared before the queue is examined',
     },
     'C22': {
@@ -241,14 +241,14 @@ CLAIMED = {
                  'walk outward from the cursor until top answers IGNORED or the argument matches (== comparison), set their answer only on a match, '
                  'and that child is the cursor before the outward step.',
         'note': 'Relies on I1 (cursor == state between steps), which is checked for init/dispatch in the same run. child_state fails through assert.',
-        'technique': SA + 'signal-set, write-set, post-dominance and control-dependence rules; a counted walk loop is a third way out of the walk (finding unless the iterable is endless)',
+        'technique': SA + 'signal-set, write-set, post-dominance and control-dependence rules; a counted walk loop is a third way out of the walk (finding unless the iterable is endless); shared mechanism rules: HSM-CURSOR.I1 for generators, BOOK.outputs-only (state_name/state_fn read by nothing)',
     },
     'C23': {
         'level': 'Decides that after start_at and after every step the last writer of state_name/state_fn on every path names the value stored in '
                  'state.fun: the bookkeeping post-dominates every handler call of dispatch/start_at, wrappers call handlers afterwards only '
                  'through state.fun/temp.fun, and spy_on writes the wrapped function\'s own name before calling it.',
         'note': 'H4 assumed.',
-        'technique': SA + 'post-dominance over handler-call sites, value-identity of the bookkeeping operands, census of post-step handler calls in wrappers; spy-decoration detection (shared with C02/C18)',
+        'technique': SA + 'post-dominance over handler-call sites, value-identity of the bookkeeping operands, census of post-step handler calls in wrappers; spy-decoration detection (shared with C02/C18); shared mechanism rules: BOOK.outputs-only (state_name/state_fn read by nothing)',
     },
     'C24': {
         'level': 'Decides that every loop of init/dispatch/trans_ has a termination argument (decreasing index / answer-steered / I1-bounded / '
@@ -256,7 +256,7 @@ CLAIMED = {
                  'initial-transition walks carry the guard, and (zone domain) that init never reads a negative index. A hang or silently wrong walk '
                  'on a malformed chart is a missing guard, visible for every chart shape.',
         'note': 'H1 for top (answers IGNORED, does not move the cursor). Malformed charts other than the two kinds the property names are not covered.',
-        'technique': SA + 'loop inventory with termination arguments, None-discipline dataflow over handler-call sites, sibling comparison, zone-domain index proofs; the arguments of every raised HsmTopologyException read only attributes the raising class or its bases define (EXC.constructible)'
+        'technique': SA + 'loop inventory with termination arguments, None-discipline dataflow over handler-call sites, sibling comparison, zone-domain index proofs; the arguments of every raised HsmTopologyException read only attributes the raising class or its bases define (EXC.constructible); clean-up before a re-raise cannot fail on an unstarted object (nullable attribute dereference)'
                      + '; exception transparency of every layer between the public calls and the processor (no return in finally, no catch-all without re-raise)',
     },
     'C17': {
@@ -266,7 +266,7 @@ CLAIMED = {
                  'protocol-conforming handler, and Factory resolves names through a subscriptable table. Equality of the action logs of the three '
                  'builds over all event sequences is translation validation by execution and is NOT decided.',
         'note': 'Not decided: behavioural equality over event sequences. The fragment enumeration is complete for the literals present in to_code.',
-        'technique': SA + 'protocol-shape matching on ASTs, registry key-structure agreement, exhaustive assembly and parsing of emitted code fragments, field-type discipline'
+        'technique': SA + 'protocol-shape matching on ASTs, registry key-structure agreement, exhaustive assembly and parsing of emitted code fragments, field-type discipline; shared mechanism rules: BOOK.outputs-only (state_name/state_fn read by nothing), FACTORY.identity (finite evaluation of Factory.start_at); REG.per-chart (no class-level container filled through an instance)'
                      + '; finite evaluation of to_code over registry contents and comparison of the parsed text with the registries; no unlocked copy/modify/store-back of a registry entry',
     },
 }
